@@ -34,3 +34,75 @@ package parentpb
 //@     invariant 0 <= k && k <= upperBound - nextIndex
 //@     invariant result.Children == pre(result.Children) && result.TotalSize == pre(result.TotalSize) && result.NextPageToken == pre(result.NextPageToken)
 //@     invariant forall j int :: k <= j && j < upperBound - nextIndex ==> result.Children[j] != nil
+//@
+//@ property C20
+//@ // ---- a child's trait list is a strictly sorted (hence duplicate-free) list of names; AddChildTrait/RemoveChildTrait
+//@ // compute set union / set difference on it ----
+//@ pure func traitsOK(ts) = forall i int :: 0 <= i && i < len(ts) ==> ts[i] != nil
+//@ pure func traitsSorted(ts) = forall i int, j int :: 0 <= i && i < j && j < len(ts) ==> ts[i].Name < ts[j].Name
+//@
+//@ func traitRemove(has0, remove) (res)
+//@   requires traitsOK(has0) && traitsSorted(has0)
+//@   requires len(remove) <= 2
+//@   ensures [sorted] traitsOK(res) && traitsSorted(res)
+//@   ensures [removed] forall i int, j int :: 0 <= i && i < len(res) && 0 <= j && j < len(remove) ==> res[i].Name != remove[j]
+//@   ensures [absent-noop] (forall i int, j int :: 0 <= i && i < len(has0) && 0 <= j && j < len(remove) ==> old(has0[i].Name) != remove[j]) ==> len(res) == len(has0)
+//@   ensures [absent-one] len(remove) == 1 && len(has0) == 1 && old(has0[0].Name) != remove[0] ==> len(res) == 1 && res[0] == old(has0[0])
+//@   // every element whose name is not removed is still there (an element moves down by at most one place per removed name;
+//@   // the witness is spelled out for the solver: the unrolled stand-in covers len(remove) <= 2)
+//@   ensures [kept] forall i int :: 0 <= i && i < len(has0) && (forall j int :: 0 <= j && j < len(remove) ==> old(has0[i].Name) != remove[j]) ==>
+//@   |   (i < len(res) && res[i] == old(has0[i])) || (0 <= i-1 && i-1 < len(res) && res[i-1] == old(has0[i])) || (0 <= i-2 && i-2 < len(res) && res[i-2] == old(has0[i]))
+//@   // nothing is invented: every element of the result is an element of the input, in the same order
+//@   ensures [only] forall m int :: 0 <= m && m < len(res) ==> (m < len(has0) && res[m] == old(has0[m])) || (m+1 < len(has0) && res[m] == old(has0[m+1])) || (m+2 < len(has0) && res[m] == old(has0[m+2]))
+//@   ensures [length] len(res) <= len(has0) && len(res) >= len(has0) - len(remove)
+//@   // set difference is a function of its arguments: the caller's list (the stored child's, which is handed to subscribers as
+//@   // the old value) is left alone
+//@   modifies nothing
+//@   replay [E$*traits.Trait] ParentOldValueIntact()      // for the frame obligation: a fixed scenario through the model API
+//@   replay ParentTraitRemove(len(has0), old(has0[0].Name), old(has0[1].Name), old(has0[2].Name), len(remove), remove[0], remove[1])
+//@   loop 0 (k):
+//@     unroll 2
+//@
+//@ func traitUnion(has0, more) (res)
+//@   requires traitsOK(has0) && traitsSorted(has0)
+//@   requires len(more) <= 1
+//@   ensures [sorted] traitsOK(res) && traitsSorted(res)
+//@   // every old element is still there (it moves up by at most one place per added name)
+//@   ensures [kept] forall i int :: 0 <= i && i < len(has0) ==>
+//@   |   (i < len(res) && res[i] == old(has0[i])) || (i+1 < len(res) && res[i+1] == old(has0[i])) || (i+2 < len(res) && res[i+2] == old(has0[i]))
+//@   ensures [added] forall j int :: 0 <= j && j < len(more) ==> (exists m int :: 0 <= m && m < len(res) && res[m].Name == more[j])
+//@   // nothing else is invented: an element of the result is an old element or carries one of the added names
+//@   ensures [only] forall m int :: 0 <= m && m < len(res) ==>
+//@   |   (m < len(has0) && res[m] == old(has0[m])) || (0 <= m-1 && m-1 < len(has0) && res[m] == old(has0[m-1])) || (0 <= m-2 && m-2 < len(has0) && res[m] == old(has0[m-2])) ||
+//@   |   (len(more) > 0 && res[m].Name == more[0]) || (len(more) > 1 && res[m].Name == more[1])
+//@   ensures [length] len(has0) <= len(res) && len(res) <= len(has0) + len(more)
+//@   modifies nothing
+//@   replay [E$*traits.Trait] ParentOldValueIntact()
+//@   replay ParentTraitUnion(len(has0), old(has0[0].Name), old(has0[1].Name), old(has0[2].Name), len(more), more[0], more[1])
+//@   loop 0 (k):
+//@     unroll 1
+//@
+//@ // ---- the interceptors of AddChildTrait / RemoveChildTrait: the request's trait list becomes the union / difference of
+//@ // the stored child's list and the given names (Collection.Update then replaces the stored list by the request's) ----
+//@ pure func childOf(m) = cast(m, *traits.Child)
+//@ pure func isChild(m) = istype(m, *traits.Child) && cast(m, *traits.Child) != nil
+//@
+//@ func (*Model).AddChildTrait$2(old, value)
+//@   requires isChild(old) && isChild(value) && childOf(old) != childOf(value)
+//@   requires traitsOK(childOf(old).Traits) && traitsSorted(childOf(old).Traits)
+//@   requires len(traitName) <= 1       // traitUnion is covered by a one-step stand-in
+//@   ensures [sorted] traitsOK(childOf(value).Traits) && traitsSorted(childOf(value).Traits)
+//@   ensures [added] forall j int :: 0 <= j && j < len(traitName) ==> (exists m int :: 0 <= m && m < len(childOf(value).Traits) && childOf(value).Traits[m].Name == traitName[j])
+//@   ensures [kept] forall i int :: 0 <= i && i < old(len(childOf(old).Traits)) ==>
+//@   |   (i < len(childOf(value).Traits) && childOf(value).Traits[i] == old(childOf(old).Traits[i])) || (i+1 < len(childOf(value).Traits) && childOf(value).Traits[i+1] == old(childOf(old).Traits[i])) ||
+//@   |   (i+2 < len(childOf(value).Traits) && childOf(value).Traits[i+2] == old(childOf(old).Traits[i]))
+//@   ensures [length] old(len(childOf(old).Traits)) <= len(childOf(value).Traits) && len(childOf(value).Traits) <= old(len(childOf(old).Traits)) + len(traitName)
+//@
+//@ func (*Model).RemoveChildTrait$1(old, value)
+//@   requires isChild(old) && isChild(value) && childOf(old) != childOf(value)
+//@   requires traitsOK(childOf(old).Traits) && traitsSorted(childOf(old).Traits)
+//@   requires len(traitName) <= 2       // traitRemove is covered by a two-step stand-in
+//@   ensures [sorted] traitsOK(childOf(value).Traits) && traitsSorted(childOf(value).Traits)
+//@   ensures [removed] forall i int, j int :: 0 <= i && i < len(childOf(value).Traits) && 0 <= j && j < len(traitName) ==> childOf(value).Traits[i].Name != traitName[j]
+//@   ensures [absent-noop] (forall i int, j int :: 0 <= i && i < old(len(childOf(old).Traits)) && 0 <= j && j < len(traitName) ==> old(childOf(old).Traits[i].Name) != traitName[j]) ==> len(childOf(value).Traits) == old(len(childOf(old).Traits))
+//@   replay ParentRemoveAbsent()
